@@ -125,7 +125,7 @@ def run(tier):
         meta[cid] = dict(feat, relation="constant_grid_equals_scalar")
         chk.count(("equal", measure, win, s, a, b))
     # ---- range: final disparities in the requested interval, whatever followed -------------------------------------
-    nrange = 48 if tier == "quick" else 480          # full factorial measure (4) x grid (2) x tail (6), repeated
+    nrange = 56 if tier == "quick" else 560          # full factorial measure (4) x grid (2) x tail (7), repeated
     for k in range(nrange):
         measure = ["sad", "census", "zncc", "ssd"][k % 4]
         win = 3 if measure in ("census", "zncc") else [1, 3][k % 2]
@@ -142,7 +142,8 @@ def run(tier):
                 [("filter", {"filter_method": "median"}), ("refinement", {"refinement_method": "vfit"})],
                 [("refinement", {"refinement_method": "vfit"}), ("validation", {"validation_method": "cross_checking_accurate", "interpolated_disparity": "mc-cnn"})],
                 [("validation", {"validation_method": "cross_checking_accurate", "interpolated_disparity": "sgm"}), ("filter", {"filter_method": "median", "filter_size": 5})],
-                [("refinement", {"refinement_method": "quadratic"}), ("refinement.1", {"refinement_method": "vfit"}), ("filter", {"filter_method": "median"})]][(k // 8) % 6]
+                [("refinement", {"refinement_method": "quadratic"}), ("refinement.1", {"refinement_method": "vfit"}), ("filter", {"filter_method": "median"})],
+                [("filter", {"filter_method": "bilateral", "sigma_space": 1.0, "sigma_color": 2.0}), ("refinement", {"refinement_method": ["vfit", "quadratic"][k % 2]})]][(k // 8) % 7]
         has_val = any(nm.startswith("validation") for nm, _ in tail)
         if grid and has_val:
             tail = tail[:1] if not tail[0][0].startswith("validation") else [("refinement", {"refinement_method": "vfit"})]
@@ -152,7 +153,7 @@ def run(tier):
         left, right = dp.make_datasets(prob)
         feat = {"measure": measure, "subpix": s, "grid": grid, "pipeline": [nm for nm, _ in steps], "interval": [glo, ghi],
                 "machine_ran_multiscale_before": k % 4 == 1}
-        chk.count(("range", measure, win, s, glo, ghi, grid, (k // 8) % 6, k))
+        chk.count(("range", measure, win, s, glo, ghi, grid, (k // 8) % 7, k))
         used = None
         try:
             if k % 4 == 1:
